@@ -38,8 +38,8 @@ class B2(batch.Batch):
 def run(tier):
     ck = C.Check("C09", tier)
     failed = ck.proofs()
-    ng = 14 if tier == "quick" else 150
-    nmut = 60 if tier == "quick" else 1500
+    ng = 14 if tier == "quick" else 50
+    nmut = 60 if tier == "quick" else 600
     b = B2("c09")
     stats = {"runs": 0, "status0": 0, "compiled": 0, "hangs": 0, "panics": 0, "byte_mutants": 0, "flagsets": len(FLAGSETS)}
     nontrivial = set()
